@@ -1,17 +1,17 @@
-SPECIFICATION Spec
+SPECIFICATION TSpec
 CONSTANTS
   EmitOn = FALSE
   Mode = "mc"
-  IPSets <- IP5x2
+  IPSets <- IP4x1
   FnW <- FW2x2
   FnB <- FB2x1
-  AuthModes <- Au2
-  MaxCfgs = 1
+  AuthModes <- Au3
+  MaxCfgs = 1000000
   MaxReqs = 0
   EthLegacyAware = TRUE
   StreamGated = FALSE
   GLock = TRUE
   Lvl = 1
-VIEW view
-INVARIANTS TypeOK MechSoundJ MechSoundG EthSame EthSound RefNonTrivial RefTable
+INVARIANTS Mark
+POSTCONDITION TraceDone
 CHECK_DEADLOCK FALSE
